@@ -135,7 +135,15 @@ class BaseKFACPreconditioner:
 
         # Register hooks on all modules
         for module in self._layers:
-            module.register_forward_pre_hook(self._save_input)
+            try:
+                # with_kwargs (torch >= 2.0) also passes an input that the
+                # parent module gave by keyword, e.g. self.fc(input=x)
+                module.register_forward_pre_hook(
+                    self._save_input,
+                    with_kwargs=True,
+                )
+            except TypeError:  # pragma: no cover
+                module.register_forward_pre_hook(self._save_input)
             module.register_full_backward_hook(self._save_grad_output)
 
     def __repr__(self) -> str:
@@ -459,10 +467,14 @@ class BaseKFACPreconditioner:
         self,
         module: torch.nn.Module,
         input_: list[torch.Tensor],
+        kwargs: dict[str, Any] | None = None,
     ) -> None:
         """Hook for saving the input during the forward pass of a module."""
         if not module.training:
             return
+        if len(input_) == 0 and kwargs:
+            # The input was passed as a keyword argument
+            input_ = list(kwargs.values())
         if self.steps % self.factor_update_steps == 0:
             name, layer = self._layers[module]
             layer.save_layer_input(input_)
